@@ -373,19 +373,20 @@ Inductive data :=
 | DArr (l : list data) | DRec (l : list (string * data)) | DFun.
 
 (* UnaryOp::Force: not `seq`, so a seal anywhere in the result is blamed *)
+Definition deep_list (ev : thunk -> outcome val) (dp : val -> outcome data) : list thunk -> outcome (list data) :=
+  fix go (ts : list thunk) : outcome (list data) :=
+    match ts with
+    | [] => Ok []
+    | t :: ts' =>
+        bind (guard (ev t)) (fun v =>
+        bind (dp v) (fun d =>
+        bind (go ts') (fun ds => Ok (d :: ds))))
+    end.
+
 Fixpoint deep (ev : thunk -> outcome val) (m : nat) (v : val) {struct m} : outcome data :=
   match m with
   | O => OutOfFuel
   | S m' =>
-      let elems :=
-        fix go (ts : list thunk) : outcome (list data) :=
-          match ts with
-          | [] => Ok []
-          | t :: ts' =>
-              bind (guard (ev t)) (fun v =>
-              bind (deep ev m' v) (fun d =>
-              bind (go ts') (fun ds => Ok (d :: ds))))
-          end in
       match v with
       | VNum n => Ok (DNum n)
       | VBool b => Ok (DBool b)
@@ -393,8 +394,9 @@ Fixpoint deep (ev : thunk -> outcome val) (m : nat) (v : val) {struct m} : outco
       | VClo _ _ _ => Ok DFun
       (* operation.rs Force: `terms.fold(cont, |acc, t| seq t acc)` puts the last element outermost, so the
          elements are forced from right to left *)
-      | VArr ts => bind (elems (rev ts)) (fun ds => Ok (DArr (rev ds)))
-      | VRec fs _ => bind (elems (rev (map snd fs))) (fun ds => Ok (DRec (combine (map fst fs) (rev ds))))
+      | VArr ts => bind (deep_list ev (deep ev m') (rev ts)) (fun ds => Ok (DArr (rev ds)))
+      | VRec fs _ =>
+          bind (deep_list ev (deep ev m') (rev (map snd fs))) (fun ds => Ok (DRec (combine (map fst fs) (rev ds))))
       | VSealed _ _ l => Err (Blame (lpol l))
       end
   end.
